@@ -47,12 +47,14 @@ func newStorageProvider(baseDir string) (*storageProvider, error) {
 	if err := provider.acquireLock(); err != nil {
 		return nil, fmt.Errorf("failed to acquire lock: %w", err)
 	}
+	verifPoint("newStorageProvider:locked")
 
 	// Scan existing segments to initialize counter
 	if err := provider.initSegmentCounter(); err != nil {
 		provider.releaseLock()
 		return nil, fmt.Errorf("failed to initialize segment counter: %w", err)
 	}
+	verifPoint("newStorageProvider:ready")
 
 	return provider, nil
 }
@@ -232,9 +234,11 @@ func (p *storageProvider) deleteSegment(segmentID uint64) error {
 	var errs []error
 
 	for _, file := range files {
+		verifPoint("deleteSegment:before-remove")
 		if err := os.Remove(file); err != nil && !os.IsNotExist(err) {
 			errs = append(errs, fmt.Errorf("failed to delete %s: %w", file, err))
 		}
+		verifPoint("deleteSegment:after-remove")
 	}
 
 	if len(errs) > 0 {
